@@ -25,14 +25,19 @@ pub fn codec_magnitudes<CS: Suite>(env: &Env, n: &Integer) where CL03<CS>: Schem
         let n = n.clone(); let bits = n.significant_bits();
         let id = format!("{}/codec-magnitudes", CS::NAME);
         if env.want(&id) {
-            let es = [Integer::from(1), pow2(CS::le - 1) + 1u32, pow2(CS::le) - 1u32];
-            let ss = [Integer::from(0), Integer::from(1), pow2(CS::ls) - 1u32];
+            // beyond the nominal sizes (le / ls BITS) up to what the positional codec can hold (le / ls OCTETS): objects that still verify
+            // exist there (s + k * p'q' for any k), and whatever the codec does with them it must not hand back a DIFFERENT object
+            let es = [Integer::from(1), pow2(CS::le - 1) + 1u32, pow2(CS::le) - 1u32, pow2(CS::le) + 1u32, pow2(CS::le + 7) + 3u32, pow2(CS::le + 8) + 3u32, pow2(2 * CS::le) + 5u32, pow2(8 * CS::le) - 1u32];
+            let ss = [Integer::from(0), Integer::from(1), pow2(CS::ls) - 1u32, pow2(CS::ls) + 1u32, pow2(CS::ls + 7) + 3u32, pow2(CS::ls + 8) + 3u32, pow2(CS::ls + 90) + 7u32, pow2(2 * CS::ls) + 5u32, pow2(8 * CS::ls) - 1u32];
             let vs = [Integer::from(1), Integer::from(255), Integer::from(256), pow2(bits - 9), pow2(bits - 8) - 1u32, pow2(bits - 8), pow2(bits - 16) + 5u32, n.clone() - 1u32];
             for e in &es { for s_ in &ss { for v in &vs {
                 env.ctx.state(&[id.as_bytes(), e.to_string_radix(16).as_bytes(), s_.to_string_radix(16).as_bytes(), v.to_string_radix(16).as_bytes()]); env.ctx.step();
                 if let Some(sig) = mk_sig::<CS>(e, s_, v) {
                     let rt = mccore::guard_val(|| Sig::<CS>::from_bytes(&sig.to_bytes()));
-                    if rt.clone().ok().as_ref() != Some(&sig) { env.ctx.violation(&format!("{}:roundtrip:bytes:magnitudes", env.ctx.prop), &format!("from_bytes(to_bytes(sig)) != sig for a signature object with e of {} bits, s of {} bits, v of {} bits: {}", e.significant_bits(), s_.significant_bits(), v.significant_bits(), rt.kind()), env.case(&id, json!({"suite": CS::NAME, "e_bits": e.significant_bits(), "s_bits": s_.significant_bits(), "v_bits": v.significant_bits()}))); }
+                    let oversize = e.significant_bits() > CS::le || s_.significant_bits() > CS::ls;
+                    // oversize components: a loud refusal (panic) is tolerated, a silently different object is not
+                    if oversize && matches!(rt, O::Panic(_)) { env.ctx.class("codec-magnitudes:oversize-refused"); }
+                    else if rt.clone().ok().as_ref() != Some(&sig) { env.ctx.violation(&format!("{}:roundtrip:bytes:magnitudes", env.ctx.prop), &format!("from_bytes(to_bytes(sig)) != sig for a signature object with e of {} bits, s of {} bits, v of {} bits: {}", e.significant_bits(), s_.significant_bits(), v.significant_bits(), rt.kind()), env.case(&id, json!({"suite": CS::NAME, "e_bits": e.significant_bits(), "s_bits": s_.significant_bits(), "v_bits": v.significant_bits()}))); }
                 }
                 env.ctx.class("codec-magnitudes"); env.ctx.trace();
             } } }
@@ -92,6 +97,20 @@ where
             match d { O::Ok((sdm, sdb)) => { expect_bool(env, &r.id, &format!("verify_multiattr after disclose_selectively(unrevealed={:?})", u), &vcall(|| sig.verify_multiattr(&w.pk, &sdb, &sdm)), true, false, "complete:disclose_selectively", json!({"base": det0, "unrevealed": u})); }
                       o => env.ctx.violation("C13:disclose_selectively:failed", &o.describe(), env.case(&r.id, json!({"base": det0, "unrevealed": u}))) }
             env.ctx.trace();
+            // the same set of hidden positions given as a list with a repeat / in reverse order / unsorted with a repeat: same statement
+            if !u.is_empty() {
+                let mut sp: Vec<Vec<usize>> = Vec::new();
+                let mut a = u.clone(); a.push(u[u.len() - 1]); sp.push(a);
+                let mut a = vec![u[0]]; a.extend(u.iter()); sp.push(a);
+                if u.len() >= 2 { let mut a = u.clone(); a.reverse(); sp.push(a.clone()); a.push(u[u.len() - 1]); sp.push(a); }
+                for spu in &sp {
+                    if !env.ctx.state(&[r.id.as_bytes(), format!("disclose-spelling{:?}", spu).as_bytes()]) { continue; }
+                    let d = mccore::guard_val(|| sig.disclose_selectively(&mv, bases.clone(), &w.pk, spu)); env.ctx.step();
+                    match d { O::Ok((sdm, sdb)) => { expect_bool(env, &r.id, &format!("verify_multiattr after disclose_selectively(unrevealed={:?}, the set {:?})", spu, u), &vcall(|| sig.verify_multiattr(&w.pk, &sdb, &sdm)), true, false, "complete:disclose_selectively:list-spelling", json!({"base": det0, "unrevealed": u, "index_list_as_given": spu})); }
+                              o => env.ctx.violation("C13:disclose_selectively:list-spelling:failed", &o.describe(), env.case(&r.id, json!({"base": det0, "unrevealed": u, "index_list_as_given": spu}))) }
+                    env.ctx.class("complete:list-spelling");
+                }
+            }
         } }
         env.ctx.class("complete");
         // ---------------- negatives (each must give false)
